@@ -26,6 +26,10 @@
 (*                   (as found: polls for ever, 1 Hz)                           *)
 (*     SharedKept    stopping a collection closes only its own streams          *)
 (*                   (as found: every stream of the shared channel handler)     *)
+(*     JoinedStopped a collection that joined an already existing handler of    *)
+(*                   its physical channel is removed from it when it is stopped *)
+(*                   (as found: only the collection that created the handler is *)
+(*                   known to StopReadCollection; the joiner's stream stays)    *)
 (*     BarrierExits  the barrier goroutine ends when its close channel is       *)
 (*                   closed (repaired in /repo by f48cb71; FALSE = spins)       *)
 (* Contract part: ghost variables cst (abstract task state), prev, last and the *)
@@ -38,11 +42,11 @@ CONSTANTS Tasks,          \* {"t1", "t2"}
           MaxFaults,      \* store faults per history (0 or 1)
           MaxRestarts,    \* restarts per history
           MaxProbes,      \* get/list calls per history
+          MaxNoops,       \* requests that cannot have an effect (unknown / already existing task, pause of a paused, resume of a running task)
           WithSettle,     \* TRUE: "settle" (>= 1 s pass) may occur, at most once
-          PauseAtomic, StartRollback, EntityGC, PollerExits, SharedKept, BarrierExits
+          PauseAtomic, StartRollback, EntityGC, PollerExits, SharedKept, JoinedStopped, BarrierExits
 
 Targets == {"a1", "a2"}
-Tgt(t) == IF SameTarget \/ t = "t1" THEN "a1" ELSE "a2"
 \* DisableAutoStart flag of the create request, fixed per task: t1 disabled, t2 enabled
 Das(t) == t = "t1"
 \* shards (vchannels) of the task's collection; c2's only shard shares its physical channel with c1's first
@@ -52,6 +56,7 @@ GStates == {"Initial", "Running", "Paused"}
 TStates == GStates \cup {"none"}
 
 VARIABLES
+  same,             \* BOOLEAN, constant over a behaviour: = SameTarget (a variable only so that the trace acceptor can bind it per trace)
   \* ---- observable projection (design state)
   stored, mem,      \* [Tasks -> TStates]
   apiG, apiL,       \* [Tasks -> TStates]: answer of Get / presence in List (both read the store)
@@ -64,6 +69,7 @@ VARIABLES
   aux,              \* [Tasks -> BOOLEAN]: other reader resources of the task alive (replicate-channel reader, catalog subscriptions, reader goroutines)
   skok,             \* [Tasks -> BOOLEAN]: live streams were seeked to the persisted checkpoints
   settled,          \* [Targets -> BOOLEAN]: the entity's channel poller has obtained its channel list
+  own,              \* [Targets -> Tasks \cup {"none"}]: whose collection created the handler of the shared physical channel (internal)
   zomb,             \* [Targets -> Nat]: goroutines of released entities of the target that are still alive
   busy,             \* Nat: spinning goroutines
   \* ---- ghost / contract
@@ -72,27 +78,30 @@ VARIABLES
   last,             \* the last call and its result
   quietSeen,        \* a pause/delete succeeded or a restart left a task paused
   illegalOK,        \* an illegal request was answered with success
-  nf, nr, np, ns,   \* faults / restarts / probes / settles used
+  nf, nr, np, ns, nn, \* faults / restarts / probes / settles / no-op requests used
   hist
 
-obsvars == <<stored, mem, apiG, apiL, gset, gcnt, nck, ent, quit, reg, aux, skok, settled, zomb, busy>>
+Tgt(t) == IF same \/ t = "t1" THEN "a1" ELSE "a2"
+
+obsvars == <<stored, mem, apiG, apiL, gset, gcnt, nck, ent, quit, reg, aux, skok, settled, own, zomb, busy>>
 ghostvars == <<cst, prev, last, quietSeen, illegalOK>>
-vars == <<obsvars, ghostvars, nf, nr, np, ns, hist>>
-view == <<obsvars, ghostvars, nf, nr, np, ns, Len(hist)>>
+vars == <<same, obsvars, ghostvars, nf, nr, np, ns, nn, hist>>
+view == <<same, obsvars, ghostvars, nf, nr, np, ns, nn, Len(hist)>>
 
 None == [t \in Tasks |-> "none"]
 NoLast == [op |-> "init", task |-> "", ok |-> TRUE, fired |-> FALSE, val |-> ""]
 
 Init ==
+  /\ same = SameTarget
   /\ stored = None /\ mem = None /\ apiG = None /\ apiL = None
   /\ gset = [t \in Tasks |-> {}] /\ gcnt = [s \in GStates |-> 0]
   /\ nck = [t \in Tasks |-> 0]
   /\ ent = [a \in Targets |-> -1] /\ quit = [t \in Tasks |-> FALSE]
   /\ reg = [t \in Tasks |-> 0] /\ aux = [t \in Tasks |-> FALSE] /\ skok = [t \in Tasks |-> TRUE]
-  /\ settled = [a \in Targets |-> FALSE] /\ zomb = [a \in Targets |-> 0] /\ busy = 0
+  /\ settled = [a \in Targets |-> FALSE] /\ own = [a \in Targets |-> "none"] /\ zomb = [a \in Targets |-> 0] /\ busy = 0
   /\ cst = None /\ prev = [reg |-> reg, nck |-> nck, cst |-> cst] /\ last = NoLast
   /\ quietSeen = FALSE /\ illegalOK = FALSE
-  /\ nf = 0 /\ nr = 0 /\ np = 0 /\ ns = 0 /\ hist = <<>>
+  /\ nf = 0 /\ nr = 0 /\ np = 0 /\ ns = 0 /\ nn = 0 /\ hist = <<>>
 
 Min(a, b) == IF a < b THEN a ELSE b
 Other(t) == CHOOSE u \in Tasks : u # t
@@ -113,12 +122,14 @@ NextCst(op, t, ok) ==
     [] op = "delete" /\ ok /\ cst[t] # "none"    -> [cst EXCEPT ![t] = "none"]
     [] OTHER -> cst
 
-Ghost(op, t, ok, fired, val) ==
-  /\ cst' = NextCst(op, t, ok)
+GhostWith(newcst, op, t, ok, fired, val) ==
+  /\ cst' = newcst
   /\ prev' = [reg |-> reg, nck |-> nck, cst |-> cst]
   /\ last' = [op |-> op, task |-> t, ok |-> ok, fired |-> fired, val |-> val]
   /\ quietSeen' = (quietSeen \/ (ok /\ op \in {"pause", "delete"} /\ cst[t] # "none"))
   /\ illegalOK' = (illegalOK \/ (ok /\ Illegal(op, t)))
+
+Ghost(op, t, ok, fired, val) == GhostWith(NextCst(op, t, ok), op, t, ok, fired, val)
 
 GhostRestart(newcst) ==
   /\ cst' = newcst
@@ -136,11 +147,11 @@ GhostSettle ==
 (* design: helpers on the resource part                                       *)
 (* ------------------------------------------------------------------------ *)
 \* record of the mutable resource variables, threaded through the helper operators
-Res == [ent |-> ent, quit |-> quit, reg |-> reg, aux |-> aux, settled |-> settled, zomb |-> zomb, busy |-> busy]
+Res == [ent |-> ent, quit |-> quit, reg |-> reg, aux |-> aux, settled |-> settled, own |-> own, zomb |-> zomb, busy |-> busy]
 
 EnsureEntity(r, a) ==
   IF r.ent[a] >= 0 THEN r
-  ELSE [r EXCEPT !.ent[a] = 0, !.settled[a] = FALSE]
+  ELSE [r EXCEPT !.ent[a] = 0, !.settled[a] = FALSE, !.own[a] = "none"]
 
 Release(r, a) ==
   [r EXCEPT !.ent[a] = -1,
@@ -151,10 +162,14 @@ StopTask(r, t) ==
   LET a == Tgt(t) IN
   IF r.ent[a] < 0 THEN r
   ELSE LET u == Other(t)
+           joined == ~JoinedStopped /\ r.own[a] \notin {"none", t} /\ r.reg[t] > 0   \* t's shared stream is unknown to the stop path
            r1 == IF r.quit[t]
-                   THEN [r EXCEPT !.quit[t] = FALSE, !.reg[t] = 0, !.aux[t] = FALSE, !.ent[a] = @ - 1,
+                   THEN [r EXCEPT !.quit[t] = FALSE, !.ent[a] = @ - 1,
+                                  !.reg[t] = IF joined THEN SharedShards ELSE 0,
+                                  !.aux[t] = joined,
                                   !.busy = IF ~BarrierExits /\ r.reg[t] > 0 THEN Min(@ + 1, 2) ELSE @,
-                                  !.reg[u] = IF ~SharedKept /\ Tgt(u) = a /\ r.reg[t] > 0 /\ r.reg[u] > 0
+                                  \* handler.Close() of the handlers t's collection is known to: every stream on them
+                                  !.reg[u] = IF ~SharedKept /\ ~joined /\ Tgt(u) = a /\ r.reg[t] > 0 /\ r.reg[u] > 0
                                                THEN (IF @ > Shards(u) - SharedShards THEN Shards(u) - SharedShards ELSE @)
                                                ELSE @]
                    ELSE r
@@ -166,11 +181,12 @@ Attach(r, t) ==
   LET a == Tgt(t) IN [r EXCEPT !.quit[t] = TRUE, !.aux[t] = TRUE, !.ent[a] = Min(@ + 1, 3)]
 
 \* StartRead: DML streams registered at the persisted checkpoints, catalog subscriptions
-Read(r, t) == [r EXCEPT !.reg[t] = Shards(t), !.aux[t] = TRUE]
+Read(r, t) == [r EXCEPT !.reg[t] = Shards(t), !.aux[t] = TRUE,
+                          !.own[Tgt(t)] = IF @ = "none" THEN t ELSE @]
 
 SetRes(r) ==
   /\ ent' = r.ent /\ quit' = r.quit /\ reg' = r.reg /\ aux' = r.aux
-  /\ settled' = r.settled /\ zomb' = r.zomb /\ busy' = r.busy
+  /\ settled' = r.settled /\ own' = r.own /\ zomb' = r.zomb /\ busy' = r.busy
 
 \* store.UpdateTaskState's gauge update: move the task from the stored (old) state's set to the new one
 GaugeMove(gs, t, old, new) == IF old \in gs[t] THEN [gs EXCEPT ![t] = (@ \ {old}) \cup {new}] ELSE gs
@@ -195,7 +211,7 @@ Create(t, k) ==
                    /\ UNCHANGED <<obsvars>>
               [] k = 3 ->                                      \* the position record stays behind (not C11's business)
                    /\ SetStore(stored, gset, [nck EXCEPT ![t] = 1])
-                   /\ UNCHANGED <<mem, ent, quit, reg, aux, skok, settled, zomb, busy>>
+                   /\ UNCHANGED <<mem, ent, quit, reg, aux, skok, settled, own, zomb, busy>>
               [] k \in {4, 5, 6} ->                            \* started half-way, then deleted again
                    /\ SetStore(stored, gset, [nck EXCEPT ![t] = 0])
                    /\ mem' = mem /\ skok' = skok
@@ -286,6 +302,7 @@ ReloadOne(t, S) ==   \* S = [st, gs, mem, r]
 Restart ==
   LET fresh == [ent |-> [a \in Targets |-> -1], quit |-> [t \in Tasks |-> FALSE], reg |-> [t \in Tasks |-> 0],
                 aux |-> [t \in Tasks |-> FALSE], settled |-> [a \in Targets |-> FALSE],
+                own |-> [a \in Targets |-> "none"],
                 zomb |-> [a \in Targets |-> 0], busy |-> 0]
       S0 == [st |-> stored, gs |-> [t \in Tasks |-> {}], mem |-> None, r |-> fresh]
       S1 == ReloadOne("t1", S0)
@@ -298,32 +315,40 @@ Restart ==
 \* at least one second passes: pollers of live entities obtain their channel list; pollers left behind by a
 \* released entity end as soon as a new entity of the same target has a channel list
 Settle ==
-  /\ UNCHANGED <<stored, mem, apiG, apiL, gset, gcnt, nck, ent, quit, reg, aux, skok, busy>>
+  /\ UNCHANGED <<stored, mem, apiG, apiL, gset, gcnt, nck, ent, quit, reg, aux, skok, own, busy>>
   /\ settled' = [a \in Targets |-> settled[a] \/ ent[a] > 0]
   /\ zomb' = [a \in Targets |-> IF ent[a] > 0 THEN 0 ELSE zomb[a]]
   /\ GhostSettle
 
 Step(h) == hist' = Append(hist, h)
 
+\* a request that cannot have an effect in the current (memory) state
+Noop(op, t) ==
+  \/ op = "create" /\ mem[t] # "none"
+  \/ op \in {"pause", "resume", "delete", "get"} /\ mem[t] = "none"
+  \/ op = "pause" /\ mem[t] = "Paused"
+  \/ op = "resume" /\ mem[t] = "Running"
+CountNoop(op, t) == /\ (Noop(op, t) => nn < MaxNoops) /\ nn' = nn + (IF Noop(op, t) THEN 1 ELSE 0)
+
 Next ==
-  /\ Len(hist) < MaxOps
+  /\ Len(hist) < MaxOps /\ same' = same
   /\ \/ \E t \in Tasks, k \in 0..6 :
           /\ (k # 0 => nf < MaxFaults) /\ nf' = nf + (IF k # 0 THEN 1 ELSE 0)
           /\ UNCHANGED <<nr, np, ns>>
-          /\ \/ Create(t, k) /\ Step([op |-> "create", task |-> t, das |-> Das(t), k |-> k])
-             \/ Pause(t, k)  /\ Step([op |-> "pause", task |-> t, das |-> FALSE, k |-> k])
-             \/ Resume(t, k) /\ Step([op |-> "resume", task |-> t, das |-> FALSE, k |-> k])
-             \/ Delete(t, k) /\ Step([op |-> "delete", task |-> t, das |-> FALSE, k |-> k])
+          /\ \/ Create(t, k) /\ CountNoop("create", t) /\ Step([op |-> "create", task |-> t, das |-> Das(t), k |-> k])
+             \/ Pause(t, k)  /\ CountNoop("pause", t)  /\ Step([op |-> "pause", task |-> t, das |-> FALSE, k |-> k])
+             \/ Resume(t, k) /\ CountNoop("resume", t) /\ Step([op |-> "resume", task |-> t, das |-> FALSE, k |-> k])
+             \/ Delete(t, k) /\ CountNoop("delete", t) /\ Step([op |-> "delete", task |-> t, das |-> FALSE, k |-> k])
      \/ \E t \in Tasks, k \in 0..1 :
           /\ np < MaxProbes /\ np' = np + 1
           /\ (k # 0 => nf < MaxFaults) /\ nf' = nf + (IF k # 0 THEN 1 ELSE 0)
           /\ UNCHANGED <<nr, ns>>
-          /\ \/ Get(t, k) /\ Step([op |-> "get", task |-> t, das |-> FALSE, k |-> k])
-             \/ t = "t1" /\ List(k) /\ Step([op |-> "list", task |-> "", das |-> FALSE, k |-> k])
-     \/ /\ nr < MaxRestarts /\ nr' = nr + 1 /\ UNCHANGED <<nf, np, ns>>
+          /\ \/ Get(t, k) /\ CountNoop("get", t) /\ Step([op |-> "get", task |-> t, das |-> FALSE, k |-> k])
+             \/ t = "t1" /\ List(k) /\ nn' = nn /\ Step([op |-> "list", task |-> "", das |-> FALSE, k |-> k])
+     \/ /\ nr < MaxRestarts /\ nr' = nr + 1 /\ UNCHANGED <<nf, np, ns, nn>>
         /\ \E t \in Tasks : stored[t] # "none"
         /\ Restart /\ Step([op |-> "restart", task |-> "", das |-> FALSE, k |-> 0])
-     \/ /\ WithSettle /\ ns < 1 /\ ns' = ns + 1 /\ UNCHANGED <<nf, np, nr>>
+     \/ /\ WithSettle /\ ns < 1 /\ ns' = ns + 1 /\ UNCHANGED <<nf, np, nr, nn>>
         /\ \E a \in Targets : ent[a] >= 0 \/ zomb[a] > 0
         /\ Settle /\ Step([op |-> "settle", task |-> "", das |-> FALSE, k |-> 0])
 
@@ -334,9 +359,12 @@ Spec == Init /\ [][Next]_vars
 (* ------------------------------------------------------------------------ *)
 NRunning(a) == Cardinality({t \in Tasks : Tgt(t) = a /\ cst[t] = "Running"})
 
+\* The X-versions take exemption sets (tasks / targets); the design is checked with none.  The trace acceptor
+\* uses them for recorded known findings only.
+
 \* exactly one state per task, the same in every view
-ViewsAgree ==
-  /\ \A t \in Tasks : apiG[t] = cst[t] /\ apiL[t] = cst[t] /\ stored[t] = cst[t] /\ mem[t] = cst[t]
+ViewsAgreeX(XT) ==
+  /\ \A t \in Tasks \ XT : apiG[t] = cst[t] /\ apiL[t] = cst[t] /\ stored[t] = cst[t] /\ mem[t] = cst[t]
   /\ \A s \in GStates : gcnt[s] = Cardinality({t \in Tasks : cst[t] = s})
 
 \* only the four legal transitions succeed (cst is driven by the successful answers; an illegal request
@@ -347,18 +375,18 @@ OnlyLegalTransitions ==
   /\ (last.op = "get" /\ prev.cst[last.task] = "none") => ~last.ok
 
 \* a lifecycle call on one task leaves the readers of the others alone
-OthersUntouched ==
+OthersUntouchedX(XR) ==
   last.op \in {"create", "pause", "resume", "delete", "get", "list", "settle"} =>
-     \A u \in Tasks : u # last.task => reg[u] = prev.reg[u]
+     \A u \in Tasks \ XR : u # last.task => reg[u] = prev.reg[u]
 
 \* a paused or deleted task has no readers and holds no share of its target's entity;
 \* the entity's refcount is the number of running tasks of the target and it is released at 0
-PausedIsQuiet ==
-  /\ \A t \in Tasks : cst[t] \in {"Paused", "none"} => (reg[t] = 0 /\ ~aux[t] /\ ~quit[t])
-  /\ \A a \in Targets : IF NRunning(a) = 0 THEN ent[a] = -1 /\ zomb[a] = 0 ELSE ent[a] = NRunning(a)
+PausedIsQuietX(XQ, XA) ==
+  /\ \A t \in Tasks \ XQ : (Tgt(t) \notin XA /\ cst[t] \in {"Paused", "none"}) => (reg[t] = 0 /\ ~aux[t] /\ ~quit[t])
+  /\ \A a \in Targets \ XA : IF NRunning(a) = 0 THEN ent[a] = -1 /\ zomb[a] = 0 ELSE ent[a] = NRunning(a)
 
 \* a running task reads (from its checkpoints)
-RunningReads == \A t \in Tasks : cst[t] = "Running" => (reg[t] >= 1 /\ quit[t] /\ skok[t])
+RunningReadsX(XR) == \A t \in Tasks \ XR : cst[t] = "Running" => (reg[t] >= 1 /\ quit[t] /\ skok[t])
 
 NoBusyWork == quietSeen => busy = 0
 
@@ -374,12 +402,20 @@ ReloadHonoursAutoStart ==
      \A t \in Tasks : /\ nck[t] = prev.nck[t]
                       /\ cst[t] = IF prev.cst[t] = "none" THEN "none" ELSE IF Das(t) THEN "Paused" ELSE "Running"
 
-Contract == /\ ViewsAgree /\ OnlyLegalTransitions /\ OthersUntouched /\ PausedIsQuiet /\ RunningReads
-            /\ NoBusyWork /\ DeleteRemovesAll /\ ReloadHonoursAutoStart
+ContractX(XT, XA, XR, XQ) ==
+            /\ ViewsAgreeX(XT) /\ OnlyLegalTransitions /\ OthersUntouchedX(XR) /\ PausedIsQuietX(XT \cup XQ, XA)
+            /\ RunningReadsX(XR \cup XT) /\ NoBusyWork /\ DeleteRemovesAll /\ ReloadHonoursAutoStart
+
+ViewsAgree == ViewsAgreeX({})
+OthersUntouched == OthersUntouchedX({})
+PausedIsQuiet == PausedIsQuietX({}, {})
+RunningReads == RunningReadsX({})
+Contract == ContractX({}, {}, {}, {})
 
 TypeOK ==
   /\ stored \in [Tasks -> TStates] /\ mem \in [Tasks -> TStates] /\ cst \in [Tasks -> TStates]
   /\ \A t \in Tasks : gset[t] \subseteq GStates /\ nck[t] \in 0..1 /\ reg[t] \in 0..2
+  /\ \A a \in Targets : own[a] \in Tasks \cup {"none"}
   /\ \A a \in Targets : ent[a] \in -1..3 /\ zomb[a] \in 0..2
   /\ busy \in 0..2
 
